@@ -64,7 +64,7 @@ func run2(c tcase) (t gostatsd.Timer, found bool, sib gostatsd.Timer, sibFound b
 		}
 	}()
 	sub, _ := mask(c.Mask)
-	ag := statsd.NewMetricAggregator(c.Pcts, time.Hour, time.Hour, time.Hour, time.Hour, sub, c.HistLim)
+	ag := statsd.VerifWiredAggregator(statsd.Server{PercentThreshold: c.Pcts, ExpiryIntervalCounter: time.Hour, ExpiryIntervalGauge: time.Hour, ExpiryIntervalSet: time.Hour, ExpiryIntervalTimer: time.Hour, DisabledSubTypes: sub, HistogramLimit: c.HistLim})
 	var tags gostatsd.Tags
 	if c.Hist {
 		tags = gostatsd.Tags{"gsd_histogram:" + c.HistTag}
